@@ -13,6 +13,7 @@ import (
 
 	"verif/harness/internal/ev"
 	"verif/harness/internal/gen"
+	"verif/harness/internal/kf"
 	"verif/harness/internal/model"
 	"verif/harness/internal/rec"
 )
@@ -171,6 +172,52 @@ func runCase(c Case, st *ev.Stats) error {
 				return fmt.Errorf("auto tx #%d called %v from %v: %s is inactive afterwards (%v) although no own handler vetoed it (vetoed %v), "+
 					"no participating state Removes it and its Requires are active; handler verdicts: %v",
 					i, tx.Called, before.List(), s, after.List(), vetoed.List(), verdicts(byTx[tx.Id]))
+			}
+		}
+		// a called Auto state that ended up active passed ALL its own bound negotiation handlers:
+		// each of them must have been asked in this transition, and none of them said no
+		if tx.Accepted {
+			asked := map[string]bool{}
+			for _, cl := range byTx[tx.Id] {
+				asked[fmt.Sprintf("%d/%s", cl.Binding, cl.Name)] = true
+			}
+			for _, s := range tx.Called {
+				if !after[s] || before[s] {
+					continue
+				}
+				if vetoed[s] {
+					msg := fmt.Sprintf("auto tx #%d called %v: %s is active afterwards although its own handler returned false; verdicts %v",
+						i, tx.Called, s, verdicts(byTx[tx.Id]))
+					// known finding: the post-negotiation re-resolution re-adds the vetoed state
+					// through the Add relation of another state that is active afterwards
+					readded := false
+					for z := range after {
+						if z != s && model.AddClosure(sc, model.Set{z: true})[s] {
+							readded = true
+						}
+					}
+					if readded && kf.IsKnown("C07-veto-readded-by-add") {
+						if st != nil {
+							st.Known("C07-veto-readded-by-add", msg)
+						}
+						continue
+					}
+					return fmt.Errorf("%s", msg)
+				}
+				for bi, bd := range c.Table.Bindings {
+					for _, h := range bd.Handlers {
+						mine := h.Name == s+am.SuffixEnter
+						for b := range before {
+							if b != s && h.Name == b+s {
+								mine = true
+							}
+						}
+						if mine && !asked[fmt.Sprintf("%d/%s", bi, h.Name)] {
+							return fmt.Errorf("auto tx #%d called %v from %v: %s became active but its bound negotiation handler %s (binding %d) was never asked; calls %v",
+								i, tx.Called, before.List(), s, h.Name, bi, verdicts(byTx[tx.Id]))
+						}
+					}
+				}
 			}
 		}
 		if err := model.RequireClosed(sc, after); err != nil {
